@@ -15,6 +15,18 @@ Proof.
   etransitivity; [apply (digit_step_ge v d)|apply IH].
 Qed.
 
+(* lexUint's overflow test *)
+Lemma uint_test_ok v d : v * 10 + d <= max_uint64 -> ((max_uint64 - d) / 10 <? v) = false.
+Proof.
+  intros H. apply N.ltb_ge. apply N.div_le_lower_bound; [discriminate|]. unfold max_uint64 in *. lia.
+Qed.
+
+Lemma uint_test_inv v d : ((max_uint64 - d) / 10 <? v) = false -> d <= 9 -> v * 10 + d <= max_uint64.
+Proof.
+  intros H Hd. apply N.ltb_ge in H. pose proof (N.mul_div_le (max_uint64 - d) 10).
+  unfold max_uint64 in *. lia.
+Qed.
+
 (* what may follow a numeral: a byte that is neither a digit nor NUL *)
 Definition stop_byte (k : str) : Prop := exists b k', k = b :: k' /\ is_digit b = false /\ b <> c_nul.
 
@@ -25,10 +37,10 @@ Proof.
   induction 1 as [|d ds Hd _ IH]; intros v c k Hc (b & k' & -> & Hb & Hn) Hlt.
   - destruct Hc as [Hc| ->]; [contradiction|]. cbn [app fold_left lex_uint]. rewrite Hb.
     destruct (N.eqb_spec b c_nul); [contradiction|]. reflexivity.
-  - cbn [app fold_left lex_uint] in *. rewrite Hd. fold (digit_step v d).
-    pose proof (fold_digit_ge ds (digit_step v d)). pose proof (digit_step_ge v d).
-    rewrite N.mod_small by lia.
-    destruct (N.ltb_spec (digit_step v d) v); [lia|].
+  - cbn [app fold_left lex_uint] in *. rewrite Hd.
+    pose proof (fold_digit_ge ds (digit_step v d)) as Hge.
+    rewrite uint_test_ok by (unfold digit_step, two64, max_uint64 in *; lia).
+    fold (digit_step v d).
     apply IH; [right; reflexivity|exists b, k'; repeat split; assumption|assumption].
 Qed.
 
@@ -218,10 +230,10 @@ Proof.
     + change (is_digit c_pipe) with false. change (c_pipe =? c_nul) with false.
       change (c_pipe =? c_pipe) with true. cbv iota.
       destruct (set_date v e); reflexivity.
-  - cbn [app fold_left lex_eattrs] in *. rewrite Hd. fold (digit_step v d).
-    pose proof (fold_digit_ge ds (digit_step v d)). pose proof (digit_step_ge v d).
-    rewrite N.mod_small by lia.
-    destruct (N.ltb_spec (digit_step v d) v); [lia|].
+  - cbn [app fold_left lex_eattrs] in *. rewrite Hd.
+    pose proof (fold_digit_ge ds (digit_step v d)) as Hge.
+    rewrite uint_test_ok by (unfold digit_step, two64, max_uint64 in *; lia).
+    fold (digit_step v d).
     apply IH; [right; reflexivity|assumption|assumption].
 Qed.
 
